@@ -150,6 +150,11 @@ func (p *Parser) parseString(data string) error {
 	if inBackticks {
 		return errors.New("backticks left open")
 	}
+	// The last line ended with a continuation backslash: the end of the input
+	// ends the directive too, it must not be dropped.
+	if pending := strings.TrimSpace(linebuffer.String()); pending != "" {
+		return p.evaluateLine(pending)
+	}
 	return nil
 }
 
